@@ -104,7 +104,13 @@ func (j *cacheJanitor[MetadataT]) cleanExpiredEntries() {
 	keysToRemove := make([]CacheKey, 0)
 
 	for key, meta := range j.cacheFns.cacheIterator {
+		// The metadata is shared with Get/UpdateMetadata, which write it under the entry's lock.
+		lock := j.cacheFns.getLock(key)
+		if !lock.TryRLock() {
+			continue // Entry is in use, look at it again in the next cycle
+		}
 		expired := meta.Expires.Before(time.Now())
+		lock.RUnlock()
 
 		if !expired {
 			continue
@@ -161,8 +167,14 @@ func (j *cacheJanitor[MetadataT]) evict(maxCacheBytes int64) {
 	now := time.Now()
 
 	for key, meta := range j.cacheFns.cacheIterator {
+		// The metadata is shared with Get/UpdateMetadata, which write it under the entry's lock.
+		lock := j.cacheFns.getLock(key)
+		if !lock.TryRLock() {
+			continue // Entry is in use and could not be evicted anyway
+		}
 		timeSinceAccess := now.Sub(meta.LastAccess).Milliseconds()
 		sizeWeight := meta.Size / bytesize.UnitM
+		lock.RUnlock()
 
 		// Calculate eviction priority (highest = evict first)
 		// Factors: age since last access + file size weight
